@@ -168,7 +168,7 @@ theorem erasing_the_instrumentation_gives_back_the_input_partial (cfg : Config) 
     Node.eqNS (eraseProgram (prologue cfg.dsts) (transformProgram cfg fuel p).out) p = true := by
   obtain ⟨p1, hbr, hout⟩ := transformProgram_BRg cfg fuel p hs hno hnb (by rw [hm]; intro h; cases h)
   rw [hout, if_pos hm, eraseProgram_insertPrologue]
-  obtain ⟨X, Δ, eX, sX, _⟩ := (VC.src 0 0 p hs).1 p1 hbr []
+  obtain ⟨X, Δ, eX, sX, _⟩ := (EVC.src 0 0 p hs).1 p1 hbr []
   rw [eX]
   exact ⟨sX.1, eqNS_of_strip sX.1⟩
 
